@@ -69,7 +69,7 @@ def directed_fragment(r, seed):
     return (S.Namespace(n, (cls, S.Typedef(S.T('Ser' + n, (n,), (a1, a2)), 'Alias' + n.capitalize()))),)
 
 
-def text_monitors(out, mod, acc):
+def text_monitors(out, mod, acc, includes=False):
     """-> list of problems found in one emitted unit."""
     probs = []
     try:
@@ -168,6 +168,20 @@ def text_monitors(out, mod, acc):
             q = call['callee'].split('<')[0].split('::')
             if any(a == b and a for a, b in zip(q, q[1:])):
                 probs.append('duplicated namespace qualifier in callee %s' % call['callee'])
+    # every header the interface names is included by the unit (the entities it declares live there), in order
+    try:
+        if not includes:
+            raise LookupError('coherent units are built with the harness\' own preamble')
+        from vlib import ref_pybind
+        want = [h for h in ref_pybind.expected(mod, (), [], False)['includes']]
+        got = [i.strip().strip('"<>') for i in inv['includes'] if 'boost/serialization' not in i]
+        acc.count('include_lists_compared')
+        if got != want:
+            probs.append('includes of the unit %r differ from the includes of the interface %r' % (got[:8], want[:8]))
+    except LookupError:
+        pass
+    except Exception as e:
+        acc.count('include_reference_unavailable')
     if inv['other']:
         probs.append('unrecognised statement: %s' % inv['other'][0][:120])
     return probs
@@ -216,7 +230,7 @@ def worker(ctx):
             seed = ctx.case_seed(20000 + i)
             r = random.Random(seed)
             g = gen.WildGen(seed, gen.Knobs(items=3, members=6, ns_depth=2), typedefs=True, typedef_same_ns=True,
-                            param_use=0.4, this_use=0.1, special_names=0.1, class_template_p=0.5)
+                            param_use=0.4, this_use=0.1, special_names=0.1, class_template_p=0.5, serialize_p=0.15)
             mod = g.module()
             text = render.render(mod)
             res = tool.outcome(tool.pybind_text, text, ('',), (), r.random() < 0.3)
@@ -225,7 +239,7 @@ def worker(ctx):
                 continue
             acc.count('text_units_scanned')
             acc.case(hashlib.sha256(res[1].encode()).hexdigest()[:16], True)
-            for p in text_monitors(res[1], mod, acc)[:2]:
+            for p in text_monitors(res[1], mod, acc, includes=True)[:2]:
                 acc.violation({'kind': 'wild', 'case_seed': seed, 'tier': ctx.tier}, {'what': p, 'text': text[:2500]})
         # ---- linked subset: main + additional file -> one importable module
         for i in ctx.my_cases(ctx.plan['linked']):
